@@ -47,10 +47,10 @@ for arch, vdef in (("avx2", "VEC_LEN=32"), ("sse", "VEC_LEN=16")):
         unwind=34, replay="stringblock", timeout=900,
         claims="all VEC_LEN-byte blocks: the three masks equal the per-byte predicates (backslash, quote, < 0x20); HasQuoteFirst/HasBackslash/HasUnescaped/QuoteIndex/BsIndex describe the first special byte; reads exactly VEC_LEN bytes"))
     VL = 32 if arch == "avx2" else 16
-    for nmax in (VL + 8,):
+    for nmax in (8,):
         PROPS["C05"]["jobs"].append(dict(
             id="C05.parseStringInplace@" + arch, src="c05_string.c", harness="h_parseStringInplace", units=sbu, defs=[vdef, "NMAX=%d" % nmax], arch=arch,
-            route="B(raw length<=%d)" % nmax, bound="raw literal length <= %d (VEC_LEN + 8)" % nmax, function="parseStringInplace", unwind=nmax + VL + 14, object_bits=14, replay="parsestring", timeout=1500,
+            route="B(raw length<=%d)" % nmax, bound="raw literal length <= %d" % nmax, function="parseStringInplace", unwind=nmax + VL + 14, object_bits=14, replay="parsestring", timeout=1500,
             claims="bounded: for every literal content up to the bound (hence every offset of every special byte relative to the vector blocks): accepted iff RFC 8259 accepts; decoded bytes, length and source advance equal the scalar oracle; rejected literals yield one of the three string-fault codes; reads stay inside literal + VEC_LEN + 12 bytes"))
 
 
@@ -85,6 +85,11 @@ for arch, vdef in ARCHS:
         id="C11.GetStringBits@" + arch, src="c11_skip.c", harness="h_GetStringBits", units=sk, defs=[vdef, "UNIT_SkipContainer"], arch=arch,
         route="L", function="GetStringBits", enforce="GetStringBits",
         claims="reads exactly 64 bytes; writes only the two carried state words"))
+for arch, vdef in ARCHS:
+    C11_JOBS.append(dict(
+        id="C11.SkipContainer@" + arch, src="c11_skip.c", harness="h_SkipContainer", units=arch_units(arch) + ["IsSpace"] + ESC + SKIP_LEAVES, defs=[vdef, "UNIT_SkipContainer"], arch=arch,
+        route="U", function="SkipContainer", enforce="SkipContainer", replace=["GetStringBits", "memcpy"], loop_contracts=True, expect_loops=3, timeout=2400, thorough_only=True,
+        claims="any len <= 2^31-65, any pos <= len: block reads stay inside the input; the tail is copied into the zeroed 64-byte buffer with len-pos < 64; closed => old pos < pos' <= len; never closed => pos' <= len (thorough tier only: about 20 min per instantiation)"))
 C11_JOBS.append(dict(
     id="C11.skip_space_safe", src="c11_space.c", harness="h_skip_space_safe", units=arch_units("avx2") + ["IsSpace", "avx2.GetNonSpaceBits", "skip_space_safe"],
     defs=["VEC_LEN=32"], arch="avx2", route="U", function="skip_space_safe", enforce="skip_space_safe", replace=["GetNonSpaceBits"],
@@ -109,6 +114,16 @@ C11_JOBS.append(dict(
     id="C11.SkipScanner.GetArrayElem", src="c11_scanner.c", harness="h_GetArrayElem", units=SCANNER_UNITS, defs=["VEC_LEN=32"], arch="avx2",
     route="U", function="SkipScanner::GetArrayElem", enforce="SkipScanner_GetArrayElem", replace=CALLEES, loop_contracts=True, expect_loops=1, object_bits=12,
     claims="against callee contracts, any index: callee preconditions hold; pos monotone; success => pos' <= len; scanner state stays well-formed"))
+C11_JOBS.append(dict(
+    id="C11.GetOnDemand.driver", src="c11_driver.c", harness="h_GetOnDemand", units=SCANNER_UNITS + ["SkipScanner.GetOnDemand"], defs=["VEC_LEN=32"], arch="avx2",
+    route="B(path<=3, back-edges<=4)", bound="path length <= 3; each goto back-edge (query, obj_key) traversed at most 4 times; any len <= 2^31-65",
+    function="SkipScanner::GetOnDemand (driver) + wrapper slice construction", unwind_paths=5, cbmc_unwindset="h_GetOnDemand.0:4", object_bits=12, timeout=1500, replay="ondemand",
+    flags=["--no-malloc-may-fail"], gi_flags=["--no-malloc-may-fail"],
+    # `sn = data + pos - 1 - sp` is evaluated before the `if (!skips)` test; after a failed SkipString pos may be len + 1, so
+    # data + pos is formed two past the end (never dereferenced): formally undefined pointer arithmetic, reported as an observation
+    observe=[(r"pointer arithmetic: pointer outside object bounds in data \+ \(signed long int\)\*pos__r", "SkipScanner_GetOnDemand"),
+             (r"arithmetic overflow on signed - in \(\(data \+ \(signed long int\)\*pos__r\) - \(signed long int\)1\) - sp", "SkipScanner_GetOnDemand")],
+    claims="bounded, plain CBMC, every scanner callee replaced by the executable form of its own contract (generated by tools/slice.py from the contract text enforced in the callee's job): every callee precondition holds at its call site (incl. the key buffer handed to parseStringInplace: closing quote 32 bytes before its end); the driver's own reads (memcpy of the raw key, memcmp with the path key) stay inside the input / key buffer; a non-negative result is a slice start with start < pos' <= len"))
 PROPS["C11"] = dict(
     level="other", jobs=C11_JOBS, trusted_base=COMMON_TRUST + MODEL_TRUST, assumptions=[], undecided=[], explanation="")
 
@@ -146,6 +161,9 @@ C14_JOBS = [
     c14("InlinedMemcmp.sign", "h_InlinedMemcmp_sign", function="InlinedMemcmp", defs=["VEC_LEN=32", "LONG_KEYS", "SMAX=159"], route="B(32<=s<=159)", bound="32 <= s <= 159",
         cbmc_unwindset="h_InlinedMemcmp_sign.0:160,h_InlinedMemcmp_sign.1:160,InlinedMemcmp.0:5", unwind=34, replay="memcmp_long",
         claims="bounded: sign equals memcmp for every length up to 4 blocks + 31 and every mismatch position"),
+    c14("InlinedMemcmpEq.exact", "h_InlinedMemcmpEq_exact", function="InlinedMemcmpEq", defs=["VEC_LEN=32", "LONG_KEYS", "SMAX=159"], route="B(32<=s<=159)", bound="32 <= s <= 159",
+        cbmc_unwindset="h_InlinedMemcmpEq_exact.0:160,h_InlinedMemcmpEq_exact.1:160,InlinedMemcmpEq.0:5", unwind=34, replay="memcmp_long",
+        claims="bounded: result is true exactly when all s bytes agree, for every length up to 4 blocks + 31 and every mismatch position"),
     c14("InlinedMemcmpEq.short", "h_InlinedMemcmpEq_short", function="InlinedMemcmpEq (s<32 dispatch)", defs=["VEC_LEN=32", "SHORT_DISPATCH"], replace=["is_eq_lt_32"], flags=UF, cbmc_unwindset="InlinedMemcmpEq.0:2",
         claims="s==0 => true; 1<=s<32 => exactly is_eq_lt_32(a,b,s) (kernel as uninterpreted function; its own proof is C14.is_eq_lt_32)"),
     c14("InlinedMemcmp.short", "h_InlinedMemcmp_short", function="InlinedMemcmp (s<32 dispatch)", defs=["VEC_LEN=32", "SHORT_DISPATCH"], replace=["cmp_lt_32"], flags=UF, cbmc_unwindset="InlinedMemcmp.0:2",
@@ -248,3 +266,43 @@ for st, sd, off in (("allocated", [], []), ("null", ["NULL_STATE=1"], [])):
         claims="every emitter writes only inside the capacity it reserved, appends the stated number of bytes, keeps earlier contents; Grow(k) followed by unchecked pushes of <= k bytes stays inside the capacity" + note),
     ]
 PROPS["C06"] = dict(level="other", jobs=C06_JOBS, trusted_base=COMMON_TRUST, assumptions=[], undecided=[], explanation="")
+
+
+# ===================================================================================== C08
+C08_UNITS = ["kDigits", "Copy2Digs", "Utoa_1_8", "U64toa_17_20", "U64toa", "I64toa", "itoa.macros", "kVec16xAsc0", "Utoa_8", "Utoa_16"]
+def c08(id, harness, **kw):
+    d = dict(id="C08." + id, src="c08_itoa.c", harness=harness, units=C08_UNITS, defs=[], arch="x86", route="L", timeout=900)
+    d.update(kw)
+    return d
+C08_JOBS = [
+    c08("lemma.endpoints", "h_div_endpoints", function="(arithmetic lemma end points)", claims="constant-folded end points of the division-monotonicity lemma"),
+    c08("Utoa_8", "h_Utoa_8", function="Utoa_8", replace=["UtoaSSE"], claims="all val < 10^8: the 8 output bytes are '0' + digit lane k; one 16-byte store inside out[0..16)"),
+    c08("Utoa_16", "h_Utoa_16", function="Utoa_16", replace=["UtoaSSE"], smt="z3", claims="all val < 10^16: 8 digits of val/10^8 then 8 digits of val%10^8; kernel preconditions (< 10^8) hold; one 16-byte store"),
+    c08("U64toa", "h_U64toa", function="U64toa (+U64toa_17_20, Utoa_8, Utoa_16 inlined)", replace=["UtoaSSE", "Utoa_1_8"], replay="u64toa", smt="z3",
+        claims="all 2^64 values: branch partition at 10^8 and 10^16; output is spelling(hi) ++ zero-padded digits of lo with hi,lo the quotient/remainder; kernel preconditions hold at every call; length <= 20; writes stay inside 24 bytes"),
+    c08("I64toa", "h_I64toa", function="I64toa", defs=["UNIT_I64toa"], replace=["U64toa"], replay="i64toa",
+        claims="all 2^64 values: a single leading '-' exactly for negatives, then U64toa(|val|) with |INT64_MIN| = 2^63; at most 21 characters; writes stay inside 25 bytes. Signed-overflow check is off inside I64toa (observation job): `-val` overflows for INT64_MIN, x86-64 compilers wrap"),
+    c08("I64toa.observe", "h_I64toa", function="I64toa", defs=["UNIT_I64toa", "OBSERVE_ALL"], replace=["U64toa"], route="O",
+        observe=[(r"arithmetic overflow on signed unary minus in -val", None)],
+        claims="observation only: `-val` is signed negation of INT64_MIN (formally undefined; wraps on x86-64 and the cast yields 2^63)"),
+    c08("Utoa_1_8.extent", "h_Utoa_1_8_extent", function="Utoa_1_8", defs=["REAL_Utoa_1_8"], replace=["UtoaSSE"],
+        claims="all val < 10^8: table indices in range, writes only out[0..8), returns out+1..out+8 (digits: exhaustive native step)"),
+]
+PROPS["C08"] = dict(level="other", jobs=C08_JOBS, trusted_base=COMMON_TRUST + MODEL_TRUST,
+    native=[dict(id="c08_kernels", kind="exhaustive", src="specs/native/c08_kernels.cpp", cflags=["-mavx2", "-mpclmul", "-mbmi", "-mlzcnt"],
+                 obligation="C08.kernels: Utoa_1_8 / Utoa_8 / UtoaSSE produce the canonical decimal digits for every value below 10^8", timeout=1800)],
+    assumptions=[], undecided=[], explanation="")
+
+
+# ===================================================================================== C04
+C04_UNITS = ["kPow10Tab", "is_digit", "Parser.fields", "Parser.carry_one", "Parser.str2int", "Parser.parseFloatingFast", "Parser.parseNumber"]
+C04_JOBS = []
+for nb in (12, 26):
+    C04_JOBS.append(dict(id="C04.parseNumber.nb%d" % nb, src="c04_number.c", harness="h_parseNumber", units=C04_UNITS, defs=["NB=%d" % nb], arch="-", route="B(len<=%d)" % nb,
+        bound="number text of at most %d bytes" % nb, function="Parser::parseNumber (+str2int, carry_one, parseFloatingFast)", unwind=max(nb + 3, 18), object_bits=12, timeout=1500 if nb > 12 else 900, flags=["--slice-formula"], solver="cadical",
+        replay="parsenumber", thorough_only=False,
+        claims="bounded: accepts exactly the RFC 8259 number grammar and stops on the first byte that cannot continue it; integers within uint64 / int64 are delivered exactly with the right kind, others as Double; signed zero; the float converters are reached only with a non-zero mantissa and in-range table indices; a dropped non-zero digit is always reported (trunc) and never reaches the exact-mantissa path"))
+C04_JOBS.append(dict(id="C04.parseFloatingFast", src="c04_number.c", harness="h_parseFloatingFast", units=C04_UNITS, defs=["UNIT_parseFloatingFast"], arch="-", route="L",
+    function="Parser::parseFloatingFast", flags=["--slice-formula"], timeout=600,
+    claims="all man < 2^52, -22 <= exp10 <= 37: every kPow10Tab index (exp10-22, 22, exp10, -exp10) is inside the 23-entry table"))
+PROPS["C04"] = dict(level="other", jobs=C04_JOBS, trusted_base=COMMON_TRUST, assumptions=[], undecided=[], explanation="")
